@@ -180,8 +180,21 @@ pub fn match_bed_and_breakfast(
         return Ok(results);
     }
 
-    // Track cumulative ratio effect from splits/unsplits between sell and potential buys
+    // Track cumulative ratio effect from splits/unsplits between sell and potential buys.
+    // A split takes effect at the end of its own date (the day loop books a date's trades
+    // before its corporate actions), whatever the line order within that date: the splits of
+    // a date are collected in `pending_ratio_effect` and folded in when the date changes.
     let mut cumulative_ratio_effect = Decimal::ONE;
+    let mut pending_ratio_effect = Decimal::ONE;
+    let mut pending_date = sell_tx.date;
+    for tx in all_transactions {
+        if tx.ticker != sell_tx.ticker {
+            continue;
+        }
+        if tx.date == sell_tx.date {
+            apply_split_ratio_effect(&mut pending_ratio_effect, tx);
+        }
+    }
 
     // Find transactions after sell date, within B&B window, for same ticker
     for (idx, tx) in all_transactions.iter().enumerate().skip(sell_idx + 1) {
@@ -206,9 +219,15 @@ pub fn match_bed_and_breakfast(
             break;
         }
 
+        if tx.date != pending_date {
+            cumulative_ratio_effect *= pending_ratio_effect;
+            pending_ratio_effect = Decimal::ONE;
+            pending_date = tx.date;
+        }
+
         match &tx.operation {
             Operation::Split { .. } | Operation::Unsplit { .. } => {
-                apply_split_ratio_effect(&mut cumulative_ratio_effect, tx);
+                apply_split_ratio_effect(&mut pending_ratio_effect, tx);
             }
             Operation::Buy {
                 amount,
